@@ -215,6 +215,7 @@ type Engine struct {
 	lemmasUsed    map[string]bool
 	leafClass     []leafClass
 	curProp       string
+	returnsSeen   int
 	regexSeq      int
 	tier          string
 	curWork       *[]*State
@@ -712,6 +713,16 @@ func (e *Engine) loadPath(s *State, v interface{}, path []PathElem, pos token.Po
 				panic(pathEnd{"index out of range (concrete)"})
 			}
 			cur = r
+		case VSlice:
+			// a slice held inline (value semantics) inside a structure
+			if x.Pure == nil {
+				panic(execError{"loadPath through a heap-backed slice at " + e.posOf(pos)})
+			}
+			r, ok := x.Pure.at(pe.Index)
+			if !ok {
+				panic(pathEnd{"index out of range (concrete)"})
+			}
+			cur = r
 		default:
 			panic(execError{fmt.Sprintf("loadPath through %T at %s", cur, e.posOf(pos))})
 		}
@@ -757,6 +768,18 @@ func (e *Engine) storePath(v interface{}, path []PathElem, nv Value) interface{}
 			panic(pathEnd{"slice store out of range"})
 		}
 		return x.set(pe.Index, e.storePath(old, path[1:], nv).(Value))
+	case VSlice:
+		if x.Pure == nil {
+			panic(execError{"storePath through a heap-backed slice"})
+		}
+		old, ok := x.Pure.at(pe.Index)
+		if !ok {
+			panic(pathEnd{"slice store out of range"})
+		}
+		n := x
+		n.Home = nil
+		n.Pure = x.Pure.set(pe.Index, e.storePath(old, path[1:], nv).(Value))
+		return n
 	}
 	panic(execError{fmt.Sprintf("storePath through %T", v)})
 }
@@ -775,7 +798,13 @@ func (e *Engine) load(s *State, p VPtr, pos token.Pos) Value {
 			panic(execError{"load from unknown object " + p.Obj.name + " at " + e.posOf(pos)})
 		}
 	}
-	return e.loadPath(s, root, p.Path, pos)
+	v := e.loadPath(s, root, p.Path, pos)
+	if sl, ok := v.(VSlice); ok && sl.Obj == nil && sl.Pure != nil && sl.Off.IsConst() && sl.Off.Val.Sign() == 0 {
+		home := p
+		sl.Home = &home
+		return sl
+	}
+	return v
 }
 
 func (e *Engine) store(s *State, p VPtr, v Value, pos token.Pos) {
@@ -790,7 +819,55 @@ func (e *Engine) store(s *State, p VPtr, v Value, pos token.Pos) {
 			panic(execError{"store to unknown object " + p.Obj.name})
 		}
 	}
+	// a structure or slice stored at a symbolic position of a sequence is kept inline: slices inside it become
+	// value-semantics snapshots whose elements are addressed through the enclosing path
+	for _, pe := range p.Path {
+		if pe.Index != nil && !pe.Index.IsConst() {
+			if pv := e.purify(s, v); pv != nil {
+				v = pv
+				e.note("slices stored inside sequences at symbolic positions are modelled inline (value semantics; no aliasing between such slices)")
+			}
+			break
+		}
+	}
 	s.heap[p.Obj] = e.storePath(root, p.Path, v)
+}
+
+// purify replaces heap-backed slices inside a value by inline snapshots; nil if there is none.
+func (e *Engine) purify(s *State, v Value) Value {
+	changed := false
+	var rec func(v Value) Value
+	rec = func(v Value) Value {
+		switch x := v.(type) {
+		case VSlice:
+			if x.Obj == nil {
+				x.Home = nil
+				return x
+			}
+			changed = true
+			sq := e.sliceSeq(s, x)
+			off := x.Off
+			return VSlice{Pure: &Seq{Sym: func(i *Term) Value {
+				el, ok := sq.at(Add(off, i))
+				if !ok {
+					panic(pathEnd{"slice index out of range (concrete)"})
+				}
+				return rec(el)
+			}, Desc: "inline"}, Off: Int64C(0), Len: x.Len, Cap: x.Len}
+		case VStruct:
+			f := make([]Value, len(x.F))
+			for i := range f {
+				f[i] = rec(x.F[i])
+			}
+			return VStruct{x.T, f}
+		}
+		return v
+	}
+	out := rec(v)
+	if !changed {
+		return nil
+	}
+	return out
 }
 
 // sliceSeq returns the backing sequence of a slice.
